@@ -98,6 +98,28 @@ int main() {
             if (c.has_mat("q2")) vf::out_mat("mean_neg", do_mean(w, c.mat("q2")));
             if (c.has_mat("q3")) vf::out_mat("mean_perm", do_mean(c.mat("w3"), c.mat("q3")));
         }
+        // the utilities are pure functions: callers in different threads (two filters in one process) must not interfere
+        {
+            vf::Entry e("utils::quaternion utilities from several threads");
+            const int T = 3, reps = static_cast<int>(c.mi("reps", 40));
+            std::vector<std::function<MatrixXd()>> jobs;
+            for (int t = 0; t < T; t++) {
+                if (c.kind == "conv") {
+                    const MatrixXd q = vf::rotate_cols(c.mat("q"), t), r = vf::rotate_cols(c.mat("r"), t);
+                    jobs.push_back([q, r]() { MatrixXd l = utils::quaternion_to_rotation_vector(q); MatrixXd x = utils::rotation_vector_to_quaternion(r);
+                                              MatrixXd o(7, std::max(l.cols(), x.cols())); o.setZero(); o.topLeftCorner(3, l.cols()) = l; o.bottomLeftCorner(4, x.cols()) = x; return o; });
+                } else if (c.kind == "sumdiff") {
+                    const MatrixXd q0 = c.mat("q0"), r = vf::rotate_cols(c.mat("r"), t), ql = vf::rotate_cols(c.mat("ql"), t);
+                    jobs.push_back([q0, r, ql]() { MatrixXd s = utils::sum_quaternion_rotation_vector(q0, r); MatrixXd ds = utils::diff_quaternion(s, q0); MatrixXd d = utils::diff_quaternion(ql, q0);
+                                                   MatrixXd o(10, std::max(s.cols(), d.cols())); o.setZero(); o.topLeftCorner(4, s.cols()) = s; o.block(4, 0, 3, ds.cols()) = ds; o.bottomLeftCorner(3, d.cols()) = d; return o; });
+                } else if (c.kind == "mean") {
+                    const MatrixXd w = c.mat("w"), q = c.mat("q");
+                    MatrixXd wt(w.rows(), 1); for (long j = 0; j < w.rows(); j++) wt(j, 0) = w((j + t) % w.rows(), 0);
+                    jobs.push_back([wt, q]() { MatrixXd m = utils::mean_quaternion(wt, q); return m; });
+                }
+            }
+            vf::out_int("concurrent_equal", vf::concurrent_same(jobs, reps) ? 1 : 0);
+        }
         vf::out_int("via_equal", via_ok ? 1 : 0);
         vf::out_end();
     }
